@@ -29,7 +29,7 @@ MANIFEST = {
     "level": LEVEL,
     "technique": "deterministic simulation: seeded worklist scheduler (8 policies) over generated and builder-produced CFGs, each analysed under several schedules and compared with a path-based reference model",
     "text": "Seeded search over (CFG, worklist schedule) pairs: generated graphs (2-9 blocks, <=4 variables, dummy edges, unreachable blocks and cycles, borrowed variables) and CFGs built by the real CFGBuilder from generated function bodies; every CFG is analysed under K scheduler policies through the guarded hook and live/def/maybe key sets must equal each other and an independent reachability-based reference; pops are bounded. Sampling, not proof.",
-    "note": "Trusted: the path-based reference (reachability over real+dummy edges, ~80 lines), the graph generator's own use/assign bookkeeping, the scheduler seam, the compat shim.",
+    "note": "Trusted: the path-based reference (reachability over real+dummy edges, ~80 lines), the graph generator's own use/assign bookkeeping, the independent statement walker that derives use/assign sets for builder-produced CFGs (c09_stats.py, ~100 lines), the scheduler seam, the compat shim.",
     "design_ref": "DESIGN.md section 3 (C09), section 5 (hook)",
 }
 VARS = ("a", "b", "c", "d")
@@ -299,7 +299,8 @@ def run_case(ch: Choices, params: dict) -> dict:
     viol: list[dict] = []
     probes = {"unreachable_cycle": 0, "borrowed_exit_unreachable": 0, "dummy_edges": 0,
               "requeued>=3": 0, "schedule_differs_from_lowest": 0, "maybe_entry_strict": 0,
-              "nested_function": 0, "exit_disconnected": 0, "with_block": 0, "comprehension": 0}
+              "nested_function": 0, "exit_disconnected": 0, "with_block": 0, "comprehension": 0,
+              "nested_cfg_under_test": 0, "comprehension_shadows_outer_name": 0}
     trace: dict = {}
     if source_mode:
         from sim.props import c09_source
@@ -308,15 +309,42 @@ def run_case(ch: Choices, params: dict) -> dict:
             return {"violations": [], "digest": "skip", "steps": 0, "keys": [],
                     "nontrivial_keys": [], "extra": {"source_rejected": 1}}
         cfg, src, entry_def, inout = built
+        from sim.props import c09_stats
+        # the CFG under test: the function's own, or (drawn) the CFG of one of its nested
+        # function bodies / modifier blocks with drawn entry sets
+        nested = c09_stats.nested_cfgs(cfg)
+        pick = ch.draw(2 * len(nested) + 1, "which_cfg") if nested else 0
+        if nested and pick >= len(nested) + 1:
+            cfg, nparams = nested[pick - len(nested) - 1]
+            outer_vars = sorted(entry_def | set(c09_source.LOCALS))
+            entry_def = set(nparams) | {v for v in outer_vars if ch.draw(3, "nested_def") == 0}
+            inout = [p_ for p_ in nparams if ch.draw(4, "nested_inout") == 0]
+            probes["nested_cfg_under_test"] = 1
         maybe_entry = set(entry_def)
+        if nested and ch.draw(4, "nested_maybe") == 0:
+            maybe_entry |= {v for v in c09_source.LOCALS if ch.draw(3, "nested_maybe_v") == 0}
         trace["source"] = src
         mode = "S"
-        stats0 = {bb: bb.compute_variable_stats() for bb in cfg.bbs}
-        used = [set(stats0[bb].used) for bb in cfg.bbs]
-        assigned = [set(stats0[bb].assigned) for bb in cfg.bbs]
+        # independent use/assign sets (own walker over the block's statements) feed the
+        # reference; the real VariableVisitor must agree with them
+        used, assigned = [], []
+        for i, bb in enumerate(cfg.bbs):
+            u, a = c09_stats.block_stats(bb)
+            used.append(u)
+            assigned.append(a)
+            s = bb.compute_variable_stats()
+            if (set(s.used) != u or set(s.assigned) != a) and not viol:
+                viol.append({"cls": "C09/BLOCK_STATS", "sig": {"mode": mode},
+                             "expected": {"used": sorted(u), "assigned": sorted(a)},
+                             "observed": {"used": sorted(s.used), "assigned": sorted(s.assigned)},
+                             "detail": {"block": i,
+                                        "statements": [ast.dump(st)[:160] for st in bb.statements][:6]}})
         probes["nested_function"] = int(src.count("def ") > 1)
         probes["with_block"] = int("with " in src)
-        probes["comprehension"] = int(" for i in range" in src or " for j in range" in src)
+        probes["comprehension"] = int(" in range(" in src and ("[" in src or "array(" in src))
+        import re as _re
+        probes["comprehension_shadows_outer_name"] = int(any(
+            m.group(1) == m.group(2) for m in _re.finditer(r"for (\w+) in range\((\w+)\)", src)))
         # upper bound on variables of any (nested) analysis: all identifiers in the source
         vs_n = len({n.id for n in ast.walk(ast.parse(src)) if isinstance(n, ast.Name)}
                    | {a.arg for a in ast.walk(ast.parse(src)) if isinstance(a, ast.arg)}) + 8
